@@ -19,14 +19,18 @@ import (
 //
 // Phase A enumerates every one of the 2^26 (CurrINF, CurrHF, Seg0Len, Seg1Len,
 // Seg2Len) meta headers and compares scion.Base.DecodeFromBytes with refShape.
-// Phase B takes accepted shapes (all 43743 of them in thorough tier, a
-// PRNG-chosen c19QuickFraction of them in quick tier) and, for all 256 pointer
-// values of each, compares every pointer predicate, IncPath,
-// Reverse and the Raw/Decoded conversions with the reference model in
-// ref_path.go.
+// Phase B takes the accepted shapes (all 43743 of them in thorough tier; in
+// quick tier a PRNG-chosen share c19QuickFraction, currently all as well) and,
+// for all 256 pointer values of each, compares every pointer predicate,
+// IncPath, Reverse and the Raw/Decoded conversions with the reference model in
+// ref_path.go. Thorough tier adds more random field fillings per shape, more
+// RSV samples and Raw.Reverse on every (not only every consistent) state.
+// Run.Exhaustive is set only if both phases really enumerated everything.
 
 // c19QuickFraction is the share of accepted shapes that the quick tier takes
-// through phase B (PRNG-chosen). 1 means all of them.
+// through phase B (PRNG-chosen subset when < 1). On 16 idle cores the whole
+// quick run takes ~12 s with 1.0 (phase A ~8 s of it); lower it if the quick
+// budget is ever a concern -- the run then reports exhaustive=false.
 const c19QuickFraction = 1.0
 
 type c19Wit struct {
